@@ -82,7 +82,39 @@ def check(chk):
         if name not in defaults and name not in bound:
             continue
         if has_star and name not in bound:
-            chk.note(f"MEMBER.config: {name} may be passed through * / ** arguments of the member constructor; not decided")
+            # keys of the ** dictionaries: a dict display, or a dict comprehension over a literal display of keys
+            keysets = []
+            for k in ctors[0].keywords:
+                if k.arg is not None:
+                    continue
+                v = k.value
+                if isinstance(v, ast.Name):
+                    defs = ff.rd.reaching(v.id, ff.node_of(ctors[0]))
+                    v = defs[0].value if len(defs) == 1 and defs[0].kind == "assign" and not defs[0].index else None
+                ks = None
+                if isinstance(v, ast.Dict) and all(kk is not None and const_str(kk) is not None for kk in v.keys):
+                    ks = {const_str(kk) for kk in v.keys}
+                elif isinstance(v, ast.DictComp) and len(v.generators) == 1 and isinstance(v.key, ast.Name) and isinstance(v.generators[0].target, ast.Name) \
+                        and v.key.id == v.generators[0].target.id and not v.generators[0].ifs:
+                    it = v.generators[0].iter
+                    if isinstance(it, ast.Name):
+                        d2 = ff.rd.reaching(it.id, ff.node_of(ctors[0]))
+                        it = d2[0].value if len(d2) == 1 and d2[0].kind == "assign" and not d2[0].index else it
+                    if isinstance(it, (ast.Tuple, ast.List, ast.Set)) and all(const_str(x) is not None for x in it.elts):
+                        ks = {const_str(x) for x in it.elts}
+                elif isinstance(v, ast.Call) and isinstance(v.func, ast.Name) and v.func.id == "dict" and not v.args:
+                    ks = {kw.arg for kw in v.keywords if kw.arg}
+                keysets.append(ks)
+            if any(ks is None for ks in keysets):
+                chk.note(f"MEMBER.config: {name} may be passed through * / ** arguments of the member constructor whose keys are not literal; not decided")
+                continue
+            if any(name in ks for ks in keysets):
+                chk.check(False, "MEMBER.config", fit, ctors[0], construct=f"member EOF: {name} is {want}",
+                          why=f"the member model's {name} is handed over through a ** dictionary (keys {sorted(set().union(*keysets))}) and is not the constant {want}: a member must centre "
+                              "the resample itself and must not rescale the model's already preprocessed samples, whatever the model's own configuration")
+                continue
+            got = effective(name) if name in bound else (defaults[name].value if isinstance(defaults.get(name), ast.Constant) else None)
+            chk.check(got is want, "MEMBER.config", fit, ctors[0], construct=f"member EOF: {name} is {want}", why=f"the member model's {name} is {got}")
             continue
         got = effective(name)
         chk.check(got is want, "MEMBER.config", fit, ctors[0], construct=f"member EOF: {name} is {want}",
